@@ -604,6 +604,17 @@ func cmdC16(prop, tier string, seed int64, out, statsOut, replay string) {
 			emitStrictCase(w, fmt.Sprintf("mis-%d", k), d2, st, "misspelt key "+p2)
 		}
 	}
+	// the keys an older configuration format had are unknown keys like any other, at the top level and below an override block
+	for ki, key := range []string{"files", "config_files", "symlinks", "empty_folders", "bindir", "replacements"} {
+		for pos := 0; pos < 2; pos++ {
+			base := "name: legacy\narch: amd64\nversion: 1.0.0\noverrides:\n  deb:\n    depends: [d]\n"
+			doc := base + key + ":\n  a: b\n"
+			if pos == 1 {
+				doc = base + "    " + key + ":\n      a: b\n"
+			}
+			emitStrictCase(w, fmt.Sprintf("legacy-key-%d-%d", ki, pos), doc, st, "a key of the v1 format")
+		}
+	}
 	// generated configurations, each valid, and each with one random injection
 	g := &pkgGen{rng: rng}
 	n := 80
@@ -714,6 +725,9 @@ func cmdC16(prop, tier string, seed int64, out, statsOut, replay string) {
 		// characters that mean something to a glob, a shell or a path: a value is substituted as it is
 		{"VX": "out/build[1]*?{a,b}\\x", "VY": "~", "VEMPTY": "", "VVER": "1.0"},
 		{"VX": "~/x", "VY": "~", "VEMPTY": "", "VVER": "1.0"},
+		// values that hold a line break: a value is substituted whole, wherever it goes
+		{"VX": "first\nsecond", "VY": "y\r\nz", "VEMPTY": "", "VVER": "1.0"},
+		{"VX": "trailing\n", "VY": "\n", "VEMPTY": "", "VVER": "1.0"},
 	}
 	for i, e := range envs {
 		emitExpandCase(w, fmt.Sprintf("exp-%d", i), expandDoc, e, st)
